@@ -430,7 +430,7 @@ static void q_line(std::ostream& out, int li, Dy scale, Dy shape, Dy p) {
 
 static void witness_case(::verif::Case& c) {
     std::ostream& out = c.out; IR disp(5, 5, 0); Built b;
-    switch (c.index % 6) {
+    switch (c.index % 7) {
     case 0: {  // F21: power law alpha = 2, xmin = 1, p = 1/2: icdf = 2, cdf(2) = 2/3
         q_line(out, 6, Dy{2, 1}, Dy{1, 1}, Dy{1, 2});
         q_line(out, 6, Dy{2, 1}, Dy{1, 1}, Dy{1, 4});
@@ -454,6 +454,10 @@ static void witness_case(::verif::Case& c) {
     case 5: {  // F25: Weibull pct = 3/4, ew = 1, ns = 3/2, scale = 2, shape = 1/2: NaN at the centre, zeros elsewhere
         Probe* k = emit_new(out, "weibull", DispersalKernelType::Weibull, disp, Dy{3, 4}, Dy{1, 1}, Dy{3, 2}, Dy{2, 1}, Dy{1, 2}, b);
         if (k) { disp(1, 1) = 6; for (int q = 0; q < 6; q++) emit_call(out, *k, 1, 1, 6); delete k; }
+        break; }
+    case 6: {  // F33: Weibull scale 3/4, shape 41/8, pct 255/256, cells 7/2: every density of the 3x3 window is 0 in doubles
+        Probe* k = emit_new(out, "weibull", DispersalKernelType::Weibull, disp, Dy{255, 256}, Dy{7, 2}, Dy{7, 2}, Dy{3, 4}, Dy{41, 8}, b);
+        if (k) { disp(2, 2) = 6; for (int q = 0; q < 6; q++) emit_call(out, *k, 2, 2, 6); delete k; }
         break; }
     default: {  // F23 (b): Cauchy pct = 1/4: rows = -1, cols = -3; every call returns the source cell
         Probe* k = emit_new(out, "cauchy", DispersalKernelType::Cauchy, disp, Dy{1, 4}, Dy{1, 1}, Dy{2, 1}, Dy{3, 1}, Dy{1, 1}, b);
